@@ -374,6 +374,12 @@ func cfgCorpus() []*Prog {
 		mk("two unreferenced labels in one function", func(add func(ir.Node)) {
 			add(ir.Label("u1")); add(nop()); add(ir.Label("loop")); add(nop()); add(ir.Label("u2")); add(nop()); add(br("JNE", "loop", true)); add(ret())
 		}),
+		mk("labels named like Go keywords", func(add func(ir.Node)) {
+			add(nop()); add(br("JNE", "return", true)); add(nop()); add(ir.Label("default")); add(nop()); add(br("JMP", "default", false)); add(ir.Label("return")); add(ret())
+		}),
+		mk("labels with a package-style name and digits", func(add func(ir.Node)) {
+			add(ir.Label("loop_1")); add(nop()); add(br("JNE", "loop_1", true)); add(br("JMP", "x9", false)); add(nop()); add(ir.Label("x9")); add(ret())
+		}),
 		mk("empty function", func(add func(ir.Node)) {}),
 		mk("only a label", func(add func(ir.Node)) { add(ir.Label("a")) }),
 		mk("only comments", func(add func(ir.Node)) { add(ir.NewComment("a")) }),
@@ -455,7 +461,7 @@ func c09(c *Ctx) {
 			}
 			final, lins, louts, ok, code := runCompileLive(p)
 			if !ok {
-				if code >= 1 && code <= 4 { // refused with a label/branch error: the function as written must deserve it
+				if code >= 1 && code <= 5 { // refused with a label/branch error: the function as written must deserve it
 					errRows = append(errRows, fmt.Sprintf("(%s, %d)", cNodes(p.Nodes), code))
 					o.Plan.Cases = append(o.Plan.Cases, Case{Index: 2000000 + len(errRows) - 1, Key: "cfg-e2e-error:" + p.Desc, Desc: fmt.Sprintf("pass.Compile refuses with error %d: %s", code, p.Text()), Input: map[string]any{"nodes": p.Text()}, Nontrivial: true})
 				}
